@@ -109,6 +109,7 @@ struct entry {
 };
 static char big[5001];
 static char bigat[5010];
+static char manyranges[80000];   /* a[1-2]b[0,2,4,...]: more than 10240 ranges in the part only wcoll_expand parses */
 
 static struct entry battery[] = {
     { "env-fanout", "envNumber", "pdsh", "FANOUT=x", { "-w", "h", "cmd" } },
@@ -126,6 +127,8 @@ static struct entry battery[] = {
     { "stdin-taken-no-command", "promptLoop", "pdsh", NULL, { "-w", "-" } },   /* nothing sets stdin_unavailable */
     { "hostspec-malformed", "hostSpec", "pdsh", NULL, { "-w", "bob@rsh:h", "cmd" } },
     { "hostspec-unknown-transport", "hostSpec", "pdsh", NULL, { "-w", "nosuch:h", "cmd" } },
+    { "hostspec-unparsable", "hostSpec", "pdsh", NULL, { "-w", "a[1-2]b]", "cmd" } },          /* hostlist_push fails: not dropped */
+    { "hostspec-unparsable-after-expansion", "hostSpec", "pdsh", NULL, { "-w", manyranges, "cmd" } },   /* ... in wcoll_expand */
     { "wcoll-file-unreadable", "wcollFile", "pdsh", NULL, { "-w", "^/nonexistent", "cmd" } },
     { "unknown-transport", "unknownRcmd", "pdsh", NULL, { "-w", "h", "-R", "nosuch", "cmd" } },
     { "no-modules", "noModules", "pdsh", "XS_NOMOD=1", { "-w", "h", "cmd" } },
@@ -254,6 +257,7 @@ int main(void)
     struct outcome out[NBATTERY];
     memset(big, 'u', sizeof big - 1);
     memset(bigat, 'u', 5000); strcpy(bigat + 5000, "@h");
+    { int i; char *q = manyranges; q += sprintf(q, "a[1-2]b[0"); for (i = 1; i < 10300; i++) q += sprintf(q, ",%d", 2 * i); strcpy(q, "]"); }
     name_sites();
     for (i = 0; i < NBATTERY; i++) run_entry(&battery[i], &out[i]);
     printf("def XS_TOTAL : Nat := %d\n", (int) (__stop_xsites - __start_xsites));
